@@ -6,6 +6,7 @@ mod bound;
 mod client;
 mod engine;
 mod gen;
+mod poller;
 mod segfile;
 mod updater;
 mod util;
@@ -42,12 +43,14 @@ fn lines() {
         let res = match toks[0] {
             "gen" => gen::run(&mut ctx, &toks[1..]),
             "cba" => client::run(&mut ctx, &toks[1..]),
+            "ord" => client::run_ord(&toks[1..]),
             "bnd" => bound::run_bnd(&toks[1..]),
             "cls" => bound::run_cls(&toks[1..]),
             "upd" => updater::run(&toks[1..]),
             "shm" => engine::run(&toks[1..]),
             "stall" => engine::run_stall(&toks[1..]),
             "seg" => segfile::run_seg(&toks[1..]),
+            "pol" => poller::run(&toks[1..]),
             "wrt" => segfile::run_wrt(&toks[1..]),
             t => {
                 eprintln!("unknown tag {}", t);
